@@ -1,5 +1,5 @@
 SPECIFICATION Spec
-CONSTANTS DimSeq <- Dims2 MaskSeq <- Masks2 CliSeq <- Clis2 DestSeq <- Dest2 PathSeq <- NoSeq Toks <- None
+CONSTANTS DimSeq <- Dims2 MaskSeq <- MasksIS CliSeq <- Clis2 DestSeq <- Dest2 PathSeq <- NoSeq Toks <- None
   Impl = "c" WithAll = FALSE Acts <- ActsC MaxTab = 4
   ItemSet <- None MaxItems = 0 GapSet <- None EdgeGaps <- None
   Letters <- None MaxLetters = 0 LetterGaps <- None NodeSet <- None MaxNodes = 0
